@@ -18,15 +18,18 @@ PROPS = {
     },
     "C13": {
         "module": "ZenonVerif.Props.C13",
-        "streams": [S("codec", 4000, 400000)],
+        "streams": [S("codec", 4000, 100000), S("calldata", 6000, 300000, driver=False)],
         "rule": "codec stream: generated account blocks of all 5 block types (plus out-of-range types), up to 3 levels of "
                 "nested descendants, amounts nil/0/1/2^255-1/2^255/2^256-1/2^256/33+ bytes/negative, uint64 fields on varint "
                 "boundaries, data nil/empty/127/128/16383/16384/20000 bytes, and momentums with 0..101 content entries; "
                 "one evaluation = one value pushed through the real ComputeHash / Serialize / Deserialize / JSON / RLP code "
-                "and the same operation replayed by the Lean model; distinct = distinct (op,result) lines",
+                "and the same operation replayed by the Lean model; distinct = distinct (op,result) lines. calldata stream: "
+                "every ValidateSendBlock of the embedded contracts on canonical and re-arranged ABI call data (trailing bytes, "
+                "dirty padding, relocated tails); evaluated on the real code only (no Lean replay)",
         "partial": "hash function is a parameter (injective on the inputs that arise); stream `variants` (two nodes) and the "
                    "acceptance-side theorem uncovered_fields_normalised (T2) are not part of this check yet; JSON object "
-                   "structure and RLP are tied by Go-side round-trip monitors only",
+                   "structure and RLP are tied by Go-side round-trip monitors only; T4 (call data canonical) has no Lean "
+                   "model of the ABI: it is an AST fact (every ValidateSendBlock re-packs block.Data) plus monitors",
         "assumptions": ["SHA3-256 (types.NewHash) is an uninterpreted parameter H: fixed 32-byte output, collision-free on the "
                         "pre-images, data and descendant/content sources of the blocks compared"],
     },
